@@ -90,12 +90,24 @@ Definition spec_row (c : clause) (glo : lopts) (t : triple) : option row :=
 Definition compat_equiv (mu r : row) : bool :=
   forallb (fun kv => match get mu (fst kv) with Some v => cell_equiv v (snd kv) | None => true end) r.
 
-(* all extensions of mu by a triple of a listed graph that matches c and agrees with mu *)
+(* a window given by bindings, `"id"@[?lo,?hi]`: the bounds are the times the row built so far gives to ?lo / ?hi (a binding
+   without a time value there does not restrict) *)
+Definition row_bound (mu : row) (alias : str) : option time :=
+  if is_empty alias then None
+  else match get mu alias with Some (CTime t) => Some t | _ => None end.
+
+Definition row_bounds_ok (c : clause) (mu : row) (t : triple) : bool :=
+  match panchor (tpred t) with
+  | None => true
+  | Some ta => within (row_bound mu (cPLoA c)) (row_bound mu (cPUpA c)) ta
+  end.
+
+(* all extensions of mu by a triple of a listed graph that matches c (inside the window mu gives, if any) and agrees with mu *)
 Definition spec_extend (c : clause) (glo : lopts) (gs : list graph) (mu : row) : list row :=
   flat_map (fun g =>
     flat_map (fun t =>
       match spec_row c glo t with
-      | Some r => if compat_equiv mu r then [merge_rows mu r] else []
+      | Some r => if row_bounds_ok c mu t && compat_equiv mu r then [merge_rows mu r] else []
       | None => []
       end) g) gs.
 
@@ -111,13 +123,20 @@ Definition spec_step (glo : lopts) (gs : list graph) (c : clause) (mus : list ro
 Definition spec_solutions (glo : lopts) (gs : list graph) (cs : list clause) : list row :=
   fold_left (fun mus c => spec_step glo gs c mus) cs [[]].
 
-(* projection of the reference rows: binding -> alias copies in order, then the output columns *)
+(* projection of the reference rows: per row, every alias receives the value its binding had before any alias was written;
+   then the output columns *)
+Definition spec_project_row (projs : list (str * str)) (r : row) : row :=
+  fold_left (fun acc pv =>
+               let a := snd (fst pv) in
+               if is_empty a then acc
+               else match snd pv with
+                    | Some v => set acc a v
+                    | None => del acc a
+                    end)
+            (map (fun p => (p, get r (fst p))) projs) r.
+
 Definition spec_project (outs : list str) (projs : list (str * str)) (mus : list row) : list (list (option cell)) :=
-  let rows := fold_left (fun rows p =>
-                 if is_empty (snd p) then rows
-                 else map (fun r => match get r (fst p) with Some v => set r (snd p) v | None => del r (snd p) end) rows)
-               projs mus in
-  map (fun r => map (get r) (add_all [] outs)) rows.
+  map (fun r => map (get r) (add_all [] outs)) (map (spec_project_row projs) mus).
 
 Definition spec_select (glo : lopts) (gs : list graph) (cs : list clause) (outs : list str) (projs : list (str * str))
   : list (list (option cell)) :=
